@@ -1041,3 +1041,18 @@ Print Assumptions robustpath_sequence_trafo_lemma.
 Print Assumptions repetition_transform_linear_lemma.
 Print Assumptions rpolygon_transform_required_denote_lemma.
 Print Assumptions element_transform_repetition_refuted.
+
+(* ------------------------------------------------------------------ end extensions under a negative factor *)
+(* FlexPath::scale, FlexPath::transform and RobustPath::simple_scale multiply end_extensions by the
+   signed factor: under a point reflection (factor -1) an extended end of length 1 becomes -1, i.e.
+   the path end retracts instead of extending; the affine image requires |factor| * extension
+   (as flexpath_transform_required has it).  Seen by the outline oracle of harness/c10_transform.cpp. *)
+Theorem path_scale_negative_extension_refuted :
+  map (fun el => vred (fe_ext el)) (fp_elems (flexpath_scale (-1) vzero (FP [V2 0 0; V2 4 0] (FE [V2 1 0; V2 1 0] (V2 1 2) :: nil) true)))
+    = (V2 (-1) (-2) :: nil) /\
+  map vred (rp_exts (rp_scale (-1) vzero (RP aff_id 1 1 (V2 1 2 :: nil) true))) = (V2 (-1) (-2) :: nil) /\
+  map (fun el => vred (fe_ext el))
+      (fp_elems (flexpath_transform_required (Pl vzero azero (-1) false) (FP [V2 0 0; V2 4 0] (FE [V2 1 0; V2 1 0] (V2 1 2) :: nil) true)))
+    = (V2 1 2 :: nil).
+Proof. vm_compute. repeat split. Qed.
+Print Assumptions path_scale_negative_extension_refuted.
